@@ -25,6 +25,15 @@ CLAIMED = {
         "Trusted: Lean kernel + standard axioms; `>=` on non-NaN doubles is transitive and total (hypotheses of the theorems); correspondence harness; SQL engines.",
         "DESIGN.md §6 C11",
     ),
+    "C01": (
+        "Lean 4 theorems about a model of blocking.py (join, link-type WHERE clause, AND NOT(coalesce(rule_j,false) OR ...) exclusion, salting partitions, exploded id-pair "
+        "tables with EXISTS exclusion, UNION ALL, match_key; two-table split): for every table, link type and rule list (rules = arbitrary three-valued outcome functions) "
+        "a row (i,l,r) is emitted iff the pair is admissible, rule i is TRUE and no earlier rule is TRUE; no pair twice or in both orientations; no rules => all admissible pairs; "
+        "plain/salted/exploding interchangeable; two-table split = link_only. Tie: predict()/deterministic_link() vs compiled model on generated tables x rule lists and on "
+        "every outcome vector in {T,F,N}^n, n<=4; brute-force oracle on the real output.",
+        "Trusted: Lean kernel + standard axioms; harness's own 3-valued evaluator for rule atoms; SQL engines; WFKeys (distinct composite ids) is a hypothesis.",
+        "DESIGN.md §6 C01",
+    ),
 }
 PENDING_REASON = "check not built yet (model/theorems/correspondence under construction per DESIGN.md §10b); not claimed until all three exist"
 
